@@ -10,6 +10,8 @@ pub mod util;
 #[cfg(kani)]
 pub mod c08;
 #[cfg(kani)]
+pub mod c09;
+#[cfg(kani)]
 pub mod c11;
 #[cfg(kani)]
 pub mod c12;
